@@ -131,11 +131,11 @@ CHECKS = {
    text="Theorems (closed): C14_regex_roundtrip - for EVERY well-formed regular expression of the supported subset, given as a syntax tree (literal and escaped characters, `.`, \\d \\D \\s \\S, bracket "
         "classes with ranges and negation, plain / non-capturing / named groups, * + ? {m} {m,} {m,n} and lazy forms on any atom or group, alternation of single items, ^ $, numbered and named "
         "back-references, nesting without bound), the regex sub-parser applied to its written form returns exactly the pattern tree the expression denotes (tr_disj: captures _N numbered by opening "
-        "parenthesis, loops with those bounds, lazy = fewest, `.` = not newline, class = in / not in); C14_regex_parser_total. With C01 (the VM finds what the specification of a pattern tree "
+        "parenthesis, loops with those bounds, lazy = fewest, `.` = not newline, class = in / not in); C14_quantifier_means_bounded_repetition - whatever the generator emits for a quantified reference-free tree (m unrolled copies + a loop of 0..n-m) has exactly the outcomes of `between m and n repetitions` of the body's pattern, for bodies that always consume; C14_regex_parser_total. With C01 (the VM finds what the specification of a pattern tree "
         "defines) the literal finds what its denotation finds. Tie: generated regexes of the subset x short ASCII texts: spans in order and group bindings of `find all @/re/` vs Python's re (a "
         "backtracking engine with back-references) applied position by position; the same programs through the model VM and the extracted specification; the implementation's tree vs the model parser's.",
    note="PARTIAL on the semantic side: that the denotation (vore pattern tree) has the meaning a conventional engine gives the regex is the definition of tr_disj plus the differential against Python re; "
-        "a proof that unrolled loops mean the bounded repetition (the generator unrolls minimum counts) is not part of the development. vore's `|` binds tighter than concatenation, so alternations are "
+        "that unrolled loops mean the bounded repetition is proved for reference-free bodies (C14_quantifier_means_bounded_repetition); there is no separate 'textbook' regex semantics in the development - the ordered-outcomes semantics of the pattern tree plays that role. vore's `|` binds tighter than concatenation, so alternations are "
         "generated as the whole content of a group or of the regex; repeated bodies cannot match the empty string (as the property says). Repaired: f46c42b (a capturing group under a quantifier "
         "with minimum >= 1 was rejected: name clash); earlier fix commits repaired the regex-body index panics and group numbering by opening parenthesis.",
    technique="Coq proof (parse-after-print round trip by mutual induction over the regex syntax) + differential against an independent backtracking regex engine",
